@@ -508,6 +508,9 @@ func Run(r *mon.Run) {
 	if r.WantEngine("shutdown") {
 		shutdownCases(r)
 	}
+	if r.WantEngine("http") {
+		httpGenerations(r)
+	}
 	r.Floor("generations_judged", 200)
 	r.Floor("leak_scans", 200)
 	r.Floor("shutdown_cases", 20)
